@@ -367,7 +367,7 @@ def run(ctx, repo):
     for mod, name in (('tyrving', '_tyrvingTables'), ('qkids', '_qkidsTables'), ('qkids', '_compTypeMap')):
         if name not in jvars[mod]:
             raise AnalysisError('anchor vanished: %s in %s' % (name, JS[mod]))
-        jt = jsast.apply_toplevel_aliases(J[mod], name, jsast.literal(jvars[mod][name]))
+        jt = jsast.module_value(J[mod], name)      # the table as it stands after the module's top-level statements (JS T-FOLD)
         ptab = repo.const(PY[mod], name)
         if name == '_qkidsTables':
             # aliases added after the literal on either side (e.g. the 75H alias) are compared through the folded value
@@ -413,10 +413,10 @@ def run(ctx, repo):
     if not any(f.rule == 'R2' for f in ctx.findings):
         ctx.ok('R2', 'all %d (pattern, key) memberships agree' % n_mem)
     # group-index map and normaliser maps
-    cm = jsast.literal(jvars['patterns']['__codesmap']).get('PAT_EVENT_CODE', {}) if '__codesmap' in jvars['patterns'] else None
+    cm = (jsast.module_value(J['patterns'], '__codesmap') or {}).get('PAT_EVENT_CODE', {}) if '__codesmap' in jvars['patterns'] else None
     if cm is None:
         raise AnalysisError('anchor vanished: __codesmap')
-    jg = jsast.literal(jvars['utils']['_gnorms']) if '_gnorms' in jvars['utils'] else None
+    jg = jsast.module_value(J['utils'], '_gnorms') if '_gnorms' in jvars['utils'] else None
     if jg is None:
         raise AnalysisError('anchor vanished: _gnorms in utils.js')
     from .c07 import read_gnorms
